@@ -141,8 +141,10 @@ def Err.toString : Err → String
   | .invalidRoute => "invalidRoute"
   | .invalidRule => "invalidRule"
   | .verify => "verify"
-  | .invalidProof => "invalidProof"
-  | .invalidHeight => "invalidHeight"
+  -- the stateless proof / height checks share their (codespace, code) with failures inside
+  -- the light client's Verify* methods, so they are reported under the same class
+  | .invalidProof => "verify"
+  | .invalidHeight => "verify"
   | .invalidAddress => "invalidAddress"
   | .unknownRequest => "unknownRequest"
   | .app s => "app:" ++ s
